@@ -137,8 +137,11 @@ def add(x, y):
 
 class Evaluator:
     """abstract evaluation of an integer term; `word` is the term whose bits are the symbolic input"""
-    def __init__(self, word, w, fixed=None, ranges=None):
+    def __init__(self, word, w, fixed=None, ranges=None, words=None):
+        """word: the symbolic input term (w bits); words: optional {term: (bit offset, width)} for several
+        input terms laid out in one virtual word"""
         self.word = word; self.w = w
+        self.words = dict((k.id, v) for k, v in (words or {}).items())
         self.fixed = fixed or {}      # input bit index -> 0/1  (cell enumeration)
         self.ranges = ranges or {}    # node id -> (lo, hi) path-derived interval
         self.memo = {}
@@ -157,6 +160,9 @@ class Evaluator:
     def _ev(self, n):
         if n is self.word:
             return self.inword()
+        if n.id in self.words:
+            off, wd = self.words[n.id]
+            return AV(wd, [self.fixed.get(off + i, ('in', off + i)) for i in range(wd)])
         op = n.op
         if op == 'const' and n.attr[0].startswith('i'):
             return const(int(n.attr[0][1:]), n.attr[1])
